@@ -249,6 +249,10 @@ func (u *Upstream) WriteDataPoints(ctx context.Context, dataID *message.DataID, 
 	if u.state.Is(streamStatusDraining) {
 		return errors.New("draining")
 	}
+	if len(dps) == 0 {
+		// nothing to buffer: an empty group would later be cut into a chunk without data points
+		return nil
+	}
 
 	select {
 	case <-u.ctx.Done():
